@@ -30,10 +30,12 @@ Unclamped knot vectors (domain `[U_p, U_n]`, arbitrary sorted outer knots): `spl
 sub-interval of `[0,1]` because the constructor normalises the piece's whole knot range), and the
 rejection at both domain ends `split_curve_rejects_both_ends`, `split_surface_rejects_both_ends`.
 
-The exceptions of the code: the driver runs `splitDirE` / `decomposeDirE` / `decomposeUVE` (Model/DecomposeE), which
-answer `none` exactly where the implementation raises (a split parameter / decomposition knot repeated more than
-`p` times; the first knot of `U[p+1 : -(p+1)]` on a domain end) and otherwise what `splitDir` / `decomposeDir` /
-`decomposeUV` answer (`split_with_exceptions_agrees`, `decompose_with_exceptions_agrees`,
+The exceptions of the code: the driver runs `splitDirD` / `decomposeDirE` / `decomposeUVE` (Model/DecomposeE), which
+answer `none` exactly where the implementation raises (a split parameter OUTSIDE the closed domain `[U_p, U_n]` of the
+split direction – `splitDirD`, audit 4 H8 –; a split parameter / decomposition knot repeated more than
+`p` times – `splitDirE` –; the first knot of `U[p+1 : -(p+1)]` on a domain end) and otherwise what `splitDir` /
+`decomposeDir` / `decomposeUV` answer (`split_with_all_exceptions_agrees`, `split_rejects_outside_domain`,
+`split_with_exceptions_agrees`, `decompose_with_exceptions_agrees`,
 `decompose_rejects_domain_edge`, `decompose_rejects_overfull_multiplicity`, `decompose_curve_not_rejected`).
 Decomposition of curves and of surfaces in u / in v / in both whose knot vector in the decomposed direction need not
 be clamped: `decompose_unclamped_curve_pieces`, `decompose_unclamped_curve_count`,
@@ -202,7 +204,9 @@ theorem decompose_remainder_admissible (p d : ℕ) (U : List K) (P : List (List 
     vector is clamped (`ClampedKv`), inner u knots repeated at most `pu` times, `ub` interior and
     separated by `tol`; the v knot vector only needs to be sorted with a non-degenerate range.  The
     split is not rejected; both pieces have clamped u knot vectors `0^{pu+1} … 1^{pu+1}`, nets of the
-    right size, u sizes adding up to `su + r + 1`; and for every `t ∈ [0,1]`, every `v` of the domain:
+    right size, u sizes adding up to `su + r + 1`; and for every `t ∈ [0,1]`, every `v ≥ V_pv` (stated without the upper bound
+    `v ≤ V_sv`: both sides are the totalised model evaluation, whose span search clamps; for `v` of the domain
+    `[V_pv, V_sv]` they are what `evaluate_single` returns, above `V_sv` `evaluate_single` raises on both objects):
     `A(t, v') = S(U_p + t (ub - U_p), v)`, `B(t, v') = S(ub + t (U_n - ub), v)`, where `v'` is `v` under the
     normalisation of the v knot vector that the pieces' constructor performs (the identity when the
     input's v knot vector is normalised). -/
@@ -233,7 +237,8 @@ theorem split_surface_u_pieces_coincide (rat : Bool) (pu pv d : ℕ) (Uu Uv : Li
     (multExact_of_sep_kv pu su Uu ub tol hU hlo hhi htol hsep hmul)
 
 /-- **Splitting a surface in v, end to end** (model `splitDir … 1` = `split_surface_v`): the mirror
-    image of `split_surface_u_pieces_coincide` (rows instead of columns). -/
+    image of `split_surface_u_pieces_coincide` (rows instead of columns; the free parameter `u ≥ U_pu` without upper
+    bound, as there: on the domain `[U_pu, U_su]` both sides are what `evaluate_single` returns). -/
 theorem split_surface_v_pieces_coincide (rat : Bool) (pu pv d : ℕ) (Uu Uv : List K) (su sv : ℕ)
     (P : List (List K)) (vb tol : K)
     (hP : NetOk d P) (hlenP : P.length = su * sv)
@@ -541,7 +546,9 @@ theorem split_unclamped_curve_pieces_coincide_of_mult (rat : Bool) (p d : ℕ) (
     `pu ≥ 1`; knots `Uu_1 … Uu_{su+pu-1}` repeated at most `pu` times, `ub` interior and separated by `tol`;
     the v knot vector only needs to be sorted with a non-degenerate range (clamped or not).  Both pieces
     have well-formed u knot vectors with the domain ends as in the curve theorem, nets of the right size,
-    u sizes adding up to `su + r + 1`; and for every `t ∈ [0,1]`, every `v` of the domain:
+    u sizes adding up to `su + r + 1`; and for every `t ∈ [0,1]`, every `v ≥ V_pv` (stated without the upper bound
+    `v ≤ V_sv`: both sides are the totalised model evaluation, whose span search clamps; for `v` of the domain
+    `[V_pv, V_sv]` they are what `evaluate_single` returns, above `V_sv` `evaluate_single` raises on both objects):
     `A(A_p + t (A_nA - A_p), v') = S(U_p + t (ub - U_p), v)`, `B(B_p + t (B_nB - B_p), v') = S(ub + t (U_n - ub), v)`,
     where `v'` is `v` under the normalisation of the v knot vector that the pieces' constructor performs. -/
 theorem split_unclamped_surface_u_pieces_coincide (rat : Bool) (pu pv d : ℕ) (Uu Uv : List K) (su sv : ℕ)
@@ -575,7 +582,8 @@ theorem split_unclamped_surface_u_pieces_coincide (rat : Bool) (pu pv d : ℕ) (
     (multExact_of_sep_kvU pu su Uu ub tol hU hlo hhi htol hsep hmul)
 
 /-- **Splitting a surface in v, v knot vector clamped or not, end to end** (model `splitDir … 1` =
-    `split_surface_v`): the mirror image of `split_unclamped_surface_u_pieces_coincide`. -/
+    `split_surface_v`): the mirror image of `split_unclamped_surface_u_pieces_coincide` (free parameter `u ≥ U_pu`
+    without upper bound, as there). -/
 theorem split_unclamped_surface_v_pieces_coincide (rat : Bool) (pu pv d : ℕ) (Uu Uv : List K) (su sv : ℕ)
     (P : List (List K)) (vb tol : K)
     (hP : NetOk d P) (hlenP : P.length = su * sv)
@@ -648,6 +656,14 @@ example : splitDir (curveShape false 2 SplitUEx.U SplitUEx.P) 0 3 SplitUEx.tol =
     (by simp [SplitUEx.U]) (by simp [SplitUEx.U, SplitUEx.P])
   simpa [SplitUEx.U, SplitUEx.P, fnOf, List.getD] using this
 
+/-- the parameters `2` and `8` lie inside the knot range `[0, 10]` but outside the domain `[3, 7]`: `split_curve` raises
+    `ValueError: Input is not a valid knot vector`; the driver's `splitDirD` answers `none`, the plain model would
+    return two "pieces" (audit 4, H8); at `5` (inside) `splitDirD` answers what `splitDir` answers -/
+example : (splitDirD (curveShape false 2 SplitUEx.U SplitUEx.P) 0 2 SplitUEx.tol).isNone = true ∧
+    (splitDirD (curveShape false 2 SplitUEx.U SplitUEx.P) 0 8 SplitUEx.tol).isNone = true ∧
+    (splitDir (curveShape false 2 SplitUEx.U SplitUEx.P) 0 2 SplitUEx.tol).isSome = true ∧
+    (splitDirD (curveShape false 2 SplitUEx.U SplitUEx.P) 0 5 SplitUEx.tol).isSome = true := by decide +kernel
+
 /-- a 5 × 2 surface of degrees (2, 1), both knot vectors unclamped: splitting in u at 5 and in v at 1/3
     satisfies the hypotheses -/
 example : ∃ UA nA PA UB nB PB,
@@ -691,6 +707,26 @@ with `p+1` control points that, at the affine image of `t ∈ [0,1]` in its own 
 theorem split_with_exceptions_agrees (S : Shape K) (dir : ℕ) (u tol : K) (r : Shape K × Shape K)
     (h : splitDirE S dir u tol = some r) : splitDir S dir u tol = some r :=
   splitDirE_some S dir u tol r h
+
+/-- **The split the driver runs** (`splitDirD`: `splitDirE` plus the exception for a parameter outside the domain)
+    **agrees with the plain model wherever it answers**: if it returns a pair, the parameter lies STRICTLY inside the
+    domain of the split direction (`U_p < u < U_n` – the hypotheses `hlo`, `hhi` of the `…_pieces_coincide` theorems),
+    `find_multiplicity` counts it at most `p` times, and `splitDirE` and `splitDir` return the same pair. -/
+theorem split_with_all_exceptions_agrees (S : Shape K) (dir : ℕ) (u tol : K) (r : Shape K × Shape K)
+    (h : splitDirD S dir u tol = some r) :
+    splitDirE S dir u tol = some r ∧ splitDir S dir u tol = some r ∧
+    (S.kv dir).getD (S.deg dir) 0 < u ∧ u < (S.kv dir).getD (S.size dir) 0 ∧
+    findMultiplicity u (S.kv dir) tol ≤ S.deg dir :=
+  splitDirD_some S dir u tol r h
+
+/-- **`split_*` at a parameter outside the domain raises** (below `U_p` or above `U_n`, the knots the model reads with
+    `getD`: for an unclamped knot vector these include the parameters between the outer knots and the domain, where the
+    plain model `splitDir` returns two ill-formed "pieces"); on the closed domain `splitDirD` is `splitDirE`. -/
+theorem split_rejects_outside_domain (S : Shape K) (dir : ℕ) (u tol : K) :
+    (u < (S.kv dir).getD (S.deg dir) 0 ∨ (S.kv dir).getD (S.size dir) 0 < u → splitDirD S dir u tol = none) ∧
+    ((S.kv dir).getD (S.deg dir) 0 ≤ u → u ≤ (S.kv dir).getD (S.size dir) 0 →
+      splitDirD S dir u tol = splitDirE S dir u tol) :=
+  ⟨splitDirD_none_of_outside S dir u tol, splitDirD_of_inside S dir u tol⟩
 
 /-- `split_*` at a parameter that `find_multiplicity` counts more than `p` times raises (`ValueError`: the
     pieces' knot vectors do not fit their control points); at most `p` copies: `splitDirE` is `splitDir`. -/
